@@ -129,8 +129,7 @@ SAFE_ORDER = [
 ]
 
 
-def r1_len_before_drop(ctx, P):
-    R = "C06.R1"
+def r1_len_before_drop(ctx, P, R="C06.R1"):
     ctx.rule(R, "a length-lowering store dominates every in-place drop of a sub-range of a collection")
     n = 0
     bodies = coll_bodies(P)
